@@ -84,6 +84,12 @@ def gen_image(rng, idx, tier, seed):
     spec['hostile'] = False
     spec['names'] = spec['names'][:2]
     spec['nt'] = 1 + (idx // len(FMTS)) % 3 if fmt != 'landuse' else 1
+    if fmt == 'wind':
+        # up to 4 steps; the 3-step image has the older 8-byte time header
+        # (no stagger flag), where a step holds fewer words
+        spec['nt'] = 1 + (idx // len(FMTS)) % 4
+        if spec['nt'] == 3:
+            spec['lstagger'] = None
     return spec
 
 
